@@ -330,10 +330,43 @@ class _AliasSubst(ast.NodeTransformer):
         return n
 
 
+def _inline_return_temps(fn):
+    """`tmp = <expr>; return tmp` (tmp used nowhere else) is rewritten in place to `return <expr>`: binding a returned
+    expression to a temporary first is a behaviour-preserving edit that rules written against `return <expr>` must not notice"""
+    uses: dict[str, int] = {}
+    for n in own_walk(fn):
+        if isinstance(n, ast.Name):
+            uses[n.id] = uses.get(n.id, 0) + 1
+    changed = False
+    for par in [fn] + list(own_walk(fn)):
+        for fld in ("body", "orelse", "finalbody"):
+            blk = getattr(par, fld, None)
+            if not isinstance(blk, list) or len(blk) < 2:
+                continue
+            i = 0
+            while i < len(blk) - 1:
+                a, b = blk[i], blk[i + 1]
+                if isinstance(a, (ast.Assign, ast.AnnAssign)) and isinstance(b, ast.Return) and isinstance(b.value, ast.Name):
+                    tg = a.targets[0] if isinstance(a, ast.Assign) and len(a.targets) == 1 else (a.target if isinstance(a, ast.AnnAssign) else None)
+                    if isinstance(tg, ast.Name) and tg.id == b.value.id and uses.get(tg.id, 0) == 2 and getattr(a, "value", None) is not None:
+                        b.value = a.value
+                        b.lineno = getattr(a, "lineno", b.lineno)
+                        del blk[i]
+                        changed = True
+                        continue
+                i += 1
+    return changed
+
+
 def resolve_aliases(repo: Repo):
     """substitute, in place, single-assignment local aliases (`waiters = self._waiters`,
     `task = current_task()`) at their use sites, so that patterns and facts are written
     against the field / call itself and introducing or removing such a temporary is neutral"""
+    for f in repo.all_funcs:
+        if _inline_return_temps(f.node):
+            for par in ast.walk(f.node):
+                for ch in ast.iter_child_nodes(par):
+                    ch._parent = par
     for f in repo.all_funcs:
         al = local_aliases(f.node)
         if not al:
